@@ -437,9 +437,15 @@ class StmtMixin:
             for i, src in enumerate(lc['invariant']):
                 name, src = src if isinstance(src, tuple) else ('inv%d' % i, src)
                 t = self.spec_eval(src, path)
-                if assume: path.assume(t)
+                if assume:
+                    path.assume(t); path.tags[t.get_id()] = name
                 else:
-                    self.vcs.append(VC('loop%d/%s/%s' % (ordinal, tag, name), list(path.pc), t, 'invariant', 0, self.fn.key))
+                    v = VC('loop%d/%s/%s' % (ordinal, tag, name), list(path.pc), t, 'invariant', 0, self.fn.key)
+                    # hypothesis slice tried first by the solver: the other (differently named) invariant clauses are left out.
+                    # Fewer hypotheses can only make a proof harder to find, never unsound.
+                    v.goal_tag = name
+                    v.drop = tuple(i for i, h in enumerate(path.pc) if path.tags.get(h.get_id()) not in (None, name) and not path.tags.get(h.get_id(), '').startswith('inv'))
+                    self.vcs.append(v)
         finally:
             for x, v in saved.items():
                 if x == '_k':
@@ -536,7 +542,8 @@ class StmtMixin:
                     try: self.apply_lemmas('loop%d.body_end' % ordinal, r)
                     finally: self.iter_snaps.pop()
                     for nm, (kind, src, at_src) in rec.items():      # ghost history: value of a specification expression in iteration k
-                        val = self.spec_value(src, r); idx = self.spec_value(at_src, r).t if at_src else k
+                        try: val = self.spec_value(src, r); idx = self.spec_value(at_src, r).t if at_src else k
+                        except StaleContract: continue        # the recorded program variable is not bound on this path
                         r.ghost['rec:' + nm] = z3.Store(r.ghost['rec:' + nm], idx, self.to_elem(kind, val))
                     self.inv_eval(lc, ordinal, r, k + 1, 'preserve', assume=False)
                     if 'variant' in lc and is_while:
